@@ -506,6 +506,127 @@ theorem byIndexReadB_ri (ext : Ext) (a : Archive) (i : Nat) (pw : Option Bytes) 
     RI (byIndexRead ext a i pw) (byIndexReadB ext a i pw) :=
   byIndexReadWith_ri _ (fun n => RI.same (takeAll_tight n).uni (Shiftable.takeAll n)) ext a i pw
 
+/-! ### The read scenario: `ZipArchive::new`, then every entry by index with a bare-read consumer (the driver's `fault.read`) -/
+
+/-- `readEntries` (`Lemmas/FaultReader`) over `byIndexReadB`. -/
+def readEntriesB (ext : Ext) (a : Archive) (pw : Option Bytes) (fa : Option Nat) :
+    List Nat → Dev → List (Out (PwResult (Nat × Out Bytes))) × Dev
+  | [], d => ([], d)
+  | i :: is, d =>
+    ((byIndexReadB ext a i pw fa d).1 :: (readEntriesB ext a pw fa is (byIndexReadB ext a i pw fa d).2).1,
+     (readEntriesB ext a pw fa is (byIndexReadB ext a i pw fa d).2).2)
+
+/-- `openAndReadAll` with std's `Interrupted` convention and the bare-read consumer. -/
+def openAndReadAllB (ext : Ext) (pw : Option Bytes) (fa : Option Nat) (d : Dev) :
+    Out Archive × List (Out (PwResult (Nat × Out Bytes))) × Dev :=
+  match openArchiveI fa d with
+  | (.ok a, d') => (.ok a, readEntriesB ext a pw fa (List.range a.files.length) d')
+  | (o, d') => (o, [], d')
+
+theorem readEntriesB_past (ext : Ext) (a : Archive) (pw : Option Bytes) (k : Nat) : ∀ (is : List Nat) (d : Dev),
+    k < d.calls → readEntriesB ext a pw (some k) is d = readEntries ext a pw none is d
+  | [], _, _ => rfl
+  | i :: is, d, hk => by
+    have e : byIndexReadB ext a i pw (some k) d = byIndexRead ext a i pw none d := by
+      rcases (byIndexReadB_ri ext a i pw).rel (some k) d with e | ⟨k', hk', _, hf, _⟩
+      · rw [e, (byIndexRead_tight ext a i pw).uni.same_of_outside (Or.inl hk)]
+      · cases hk'; unfold Fired at hf; omega
+    have hm := (byIndexRead_tight ext a i pw).uni.mono none d
+    rw [readEntriesB, readEntries, e, readEntriesB_past ext a pw k is _ (by omega)]
+
+theorem readEntries_shift (ext : Ext) (a : Archive) (pw : Option Bytes) (c : Nat) : ∀ (is : List Nat) (d : Dev),
+    readEntries ext a pw none is (d.shift c) =
+      ((readEntries ext a pw none is d).1, (readEntries ext a pw none is d).2.shift c)
+  | [], _ => rfl
+  | i :: is, d => by
+    have e := (byIndexReadB_ri ext a i pw).shift.eq d c
+    rw [readEntries, readEntries, e]
+    dsimp only
+    rw [readEntries_shift ext a pw c is]
+
+/-- every entry read returned a value under one fault of ANY kind ⇒ the failure-free results; the device is the
+failure-free one, with one more call counted when a retry loop absorbed an `Interrupted` -/
+theorem readEntriesB_all_ok (ext : Ext) (a : Archive) (pw : Option Bytes) (k : Nat) : ∀ (is : List Nat) (d : Dev),
+    (∀ o ∈ (readEntriesB ext a pw (some k) is d).1, o.isOk = true) →
+    (readEntriesB ext a pw (some k) is d).1 = (readEntries ext a pw none is d).1 ∧
+    ((readEntriesB ext a pw (some k) is d).2 = (readEntries ext a pw none is d).2 ∨
+      (d.fkind = .interrupted ∧ (readEntriesB ext a pw (some k) is d).2 = (readEntries ext a pw none is d).2.shift 1))
+  | [], _, _ => ⟨rfl, Or.inl rfl⟩
+  | i :: is, d, hok => by
+    rw [readEntriesB] at hok ⊢
+    rw [readEntries]
+    rcases h : byIndexReadB ext a i pw (some k) d with ⟨(r | e | p), d'⟩ <;> rw [h] at hok <;> dsimp only at hok ⊢
+    · obtain ⟨d0, h0, hd⟩ := (byIndexReadB_ri ext a i pw).ok_is_faultfree (byIndexRead_tight ext a i pw).errOnFire h
+      have hkd := (byIndexRead_tight ext a i pw).uni.kind none d
+      rw [h0] at hkd ⊢
+      dsimp only at hkd ⊢
+      rcases hd with rfl | ⟨hi, hf, rfl⟩
+      · obtain ⟨i1, i2⟩ := readEntriesB_all_ok ext a pw k is d' (fun o ho => hok o (List.mem_cons_of_mem _ ho))
+        refine ⟨by rw [i1], ?_⟩
+        rcases i2 with i2 | ⟨hi, i2⟩
+        · exact Or.inl i2
+        · exact Or.inr ⟨by rw [← hkd]; exact hi, i2⟩
+      · have hp := readEntriesB_past ext a pw k is (d0.shift 1)
+          (by unfold Fired at hf; unfold Dev.shift; dsimp only; omega)
+        rw [hp, readEntries_shift]
+        exact ⟨rfl, Or.inr ⟨hi, rfl⟩⟩
+    · exact absurd (hok _ (List.mem_cons_self ..)) (by simp [Out.isOk])
+    · exact absurd (hok _ (List.mem_cons_self ..)) (by simp [Out.isOk])
+
+/-- **The read scenario under one fault of ANY kind**: `new` returned an archive and every entry read returned a value ⇒
+the archive value and every entry's result are those of the failure-free scenario, and so is the device - with one more
+call counted when a retry loop absorbed an `Interrupted`. -/
+theorem openAndReadAllB_all_ok (ext : Ext) (pw : Option Bytes) (k : Nat) (d : Dev)
+    (h1 : (openAndReadAllB ext pw (some k) d).1.isOk = true)
+    (h2 : ∀ o ∈ (openAndReadAllB ext pw (some k) d).2.1, o.isOk = true) :
+    (openAndReadAllB ext pw (some k) d).1 = (openAndReadAll ext pw none d).1 ∧
+    (openAndReadAllB ext pw (some k) d).2.1 = (openAndReadAll ext pw none d).2.1 ∧
+    ((openAndReadAllB ext pw (some k) d).2.2 = (openAndReadAll ext pw none d).2.2 ∨
+      (d.fkind = .interrupted ∧ (openAndReadAllB ext pw (some k) d).2.2 = (openAndReadAll ext pw none d).2.2.shift 1)) := by
+  unfold openAndReadAllB at h1 h2 ⊢
+  unfold openAndReadAll
+  rcases h : openArchiveI (some k) d with ⟨(a | e | p), d'⟩ <;> rw [h] at h1 h2 <;> dsimp only at h1 h2 ⊢
+  · obtain ⟨d0, h0, hd⟩ := openArchiveI_ri.ok_is_faultfree openArchive_errOnFire h
+    have hkd := openArchive_uniform.kind none d
+    rw [h0] at hkd ⊢
+    dsimp only at hkd ⊢
+    rcases hd with rfl | ⟨hi, hf, rfl⟩
+    · obtain ⟨i1, i2⟩ := readEntriesB_all_ok ext a pw k (List.range a.files.length) d' h2
+      refine ⟨rfl, i1, ?_⟩
+      rcases i2 with i2 | ⟨hi, i2⟩
+      · exact Or.inl i2
+      · exact Or.inr ⟨by rw [← hkd]; exact hi, i2⟩
+    · have hp := readEntriesB_past ext a pw k (List.range a.files.length) (d0.shift 1)
+        (by unfold Fired at hf; unfold Dev.shift; dsimp only; omega)
+      rw [hp, readEntries_shift]
+      exact ⟨rfl, rfl, Or.inr ⟨hi, rfl⟩⟩
+  · cases h1
+  · cases h1
+
+theorem readEntriesB_hard (ext : Ext) (a : Archive) (pw : Option Bytes) (fa : Option Nat) : ∀ (is : List Nat) (d : Dev),
+    (d.fkind ≠ .interrupted ∨ fa = none) → readEntriesB ext a pw fa is d = readEntries ext a pw fa is d
+  | [], _, _ => rfl
+  | i :: is, d, hk => by
+    have e : byIndexReadB ext a i pw fa d = byIndexRead ext a i pw fa d := by
+      rcases hk with hk | rfl
+      · exact (byIndexReadB_ri ext a i pw).hard fa d hk
+      · exact (byIndexReadB_ri ext a i pw).no_fault d
+    have hkd := (byIndexRead_tight ext a i pw).uni.kind fa d
+    rw [readEntriesB, readEntries, e, readEntriesB_hard ext a pw fa is _ (by rw [hkd]; exact hk)]
+
+/-- on a device whose failures are hard ones, and without a fault, the scenario IS `openAndReadAll` -/
+theorem openAndReadAllB_hard (ext : Ext) (pw : Option Bytes) (fa : Option Nat) (d : Dev)
+    (hk : d.fkind ≠ .interrupted ∨ fa = none) : openAndReadAllB ext pw fa d = openAndReadAll ext pw fa d := by
+  have e : openArchiveI fa d = openArchive fa d := by
+    rcases hk with hk | rfl
+    · exact openArchiveI_ri.hard fa d hk
+    · exact openArchiveI_ri.no_fault d
+  have hkd := openArchive_uniform.kind fa d
+  unfold openAndReadAllB openAndReadAll
+  rw [e]
+  rcases h : openArchive fa d with ⟨(a | e | p), d'⟩ <;> rw [h] at hkd <;> dsimp only at hkd ⊢
+  rw [readEntriesB_hard ext a pw fa _ d' (by rw [hkd]; exact hk)]
+
 theorem M.bind_err {α β} {x : M α} {f : α → M β} {fa : Option Nat} {d d' : Dev} {e : ZErr}
     (h : x fa d = (.err e, d')) : (x >>= f) fa d = (.err e, d') := by
   rw [M.bind_apply, h]
